@@ -16,8 +16,8 @@ Structure of the argument.
    `FreeFrame`, **regenerated from the Go source on every run** (`Gen/C09.lean`), pass the checker
    `disciplined`; `disciplined_sound` says what that means: on every control-flow path, for any
    number of loop iterations, the method is `Acquire; touches of allocator state; Release` and
-   returns with the lock released.  (`peek` = a read of state written only by `setupPoolBitmaps`
-   during initialisation: `init_only_state`.)
+   returns with the lock released.  (`peek` = a read of state written only by functions that run during
+   initialisation and are unreachable from the two methods: `init_only_state`.)
 2. `linearizable`: for any object whose operations have that shape — any shared state, any number
    of threads, every schedule — the concurrent machine of `Model/Locked.lean` is explained by the
    sequential run of the operations in the order of their acquires.
@@ -70,13 +70,17 @@ the lock is taken twice. -/
 theorem skeletons_disciplined :
     disciplined Gen.C09.allocFrameSkel = true ∧ disciplined Gen.C09.freeFrameSkel = true := by decide
 
-/-- functions that run once, before the allocator is shared (`Init → init → setupPoolBitmaps`) -/
-def initFunctions : List String := ["setupPoolBitmaps"]
-
-/-- **init_only_state** — what the two methods read outside the protected set (`peek`: the pools
-slice header, `startFrame`, the error variables) is written, or has its address taken, nowhere in
-package `pmm` except in `setupPoolBitmaps`. -/
-theorem init_only_state : ∀ w ∈ Gen.C09.writers, w.2 ∈ initFunctions := by decide
+/-- **init_only_state** — what the two methods (and their helpers) read outside the protected set
+(`peek`: the pools slice header, `startFrame`/`endFrame`, the error variables) is written, or has its
+address taken, only by functions of package `pmm` that are reachable from the initialisation entry
+`Init` (which runs once, before the allocator is shared) and are **not** reachable from
+`AllocFrame`/`FreeFrame` or from any function stored in a package variable — in the syntactic,
+over-approximated call graph the extractor generates from the source.  So splitting
+`setupPoolBitmaps` into helpers is fine; a writer called from the two methods, or from a function
+nobody calls during initialisation, is not. -/
+theorem init_only_state :
+    Gen.C09.initOnlyWriters = [] ∧
+    ∀ w ∈ Gen.C09.writers, w.2 ∈ Gen.C09.initReach ∧ w.2 ∉ Gen.C09.runReach := by decide
 
 /-- **linearizable** — for every lock-protected object (any shared state, any operations made of
 finitely many atomic micro-steps, any clients, any number of threads) and every schedule: the
